@@ -58,8 +58,8 @@ pub fn a(label: &str) -> String {
 
 /// the label of an address of the model (for readable details); unknown addresses stay as they are
 pub fn pretty(addr: &str) -> String {
-    const LABELS: [&str; 18] = [
-        "A", "B", "C", "D", "U1", "U2", "DON", "AD", "AD2", "X", "H1", "H2", "group", "stakec", "token", "token2", "creator", "U3",
+    const LABELS: [&str; 19] = [
+        "A", "B", "C", "D", "U1", "U2", "DON", "AD", "AD2", "X", "H1", "H2", "H3", "group", "stakec", "token", "token2", "creator", "U3",
     ];
     LABELS.iter().find(|l| a(l) == addr).map(|l| l.to_string()).unwrap_or_else(|| addr.to_string())
 }
